@@ -62,6 +62,8 @@ type runSpec struct {
 	// FinalOnly: a final_blocks_only request (with TailLag the blocks above Final reach the pipeline as plain
 	// "irreversible" signals, as from the live hub)
 	FinalOnly bool `json:"final_only,omitempty"`
+	// Skipped: block numbers the chain does not have (only on a chain without non-final tail)
+	Skipped []uint64 `json:"skipped_block_numbers,omitempty"`
 	// Faults: the object store fails the first write of some cache files transiently during this request
 	Faults *writeFaultSpec `json:"write_faults,omitempty"`
 }
@@ -106,6 +108,9 @@ type runOut struct {
 func chainFor(spec runSpec, head uint64) []world.Step {
 	if spec.TailLag > 0 && spec.Final > 0 {
 		return world.LinearChainLag(head, spec.Final, spec.TailLag)
+	}
+	if len(spec.Skipped) > 0 {
+		return world.LinearChainWithout(head, spec.Skipped)
 	}
 	return world.LinearChain(head)
 }
